@@ -65,7 +65,8 @@ ASSUMPTIONS = ['client objects are plain attribute bags; the _ prefix rule '
 
 SOURCES = ('kw', 'tvar', 'client', 'mapping', 'ckw', 'cmap')
 FORMS = ('var', 'call', 'callexpr', 'varexprcall', 'entity', 'ifvar',
-         'exprlambda', 'exprcomp', 'exprgen')
+         'exprlambda', 'exprcomp', 'exprgen', 'renderexpr', 'subscriptexpr',
+         'getitemexpr', 'getitem0expr')
 BINDERS = ('in', 'inb', 'with', 'withmap', 'withonly', 'let', 'letn', 'lete',
            'if', 'elif', 'try', 'sub', 'subcl')
 SYNTAXES = ('dtml', 'ssi', 'epfs')
@@ -85,6 +86,8 @@ def value_spec(kind, marker):
             else ['lit', v]
     if kind == 'callable':
         return ['probe', marker, ['lit', marker]]
+    if kind == 'rwn':
+        return ['rwn', marker]
     if kind == 'nonetop':
         # the winning source defines the name, with the value None
         return ['lit', None]
@@ -109,6 +112,15 @@ def lookup_nodes(form):
         return [['call', E('n')], T('.')]
     if form == 'varexprcall':
         return [['var', E('n()'), []]]
+    # the ways an expression can ask for what a tag would insert
+    if form == 'renderexpr':
+        return [['var', E('_.render(n)'), []]]
+    if form == 'subscriptexpr':
+        return [['var', E("_['n']"), []]]
+    if form == 'getitemexpr':
+        return [['var', E("_.getitem('n', 1)"), []]]
+    if form == 'getitem0expr':
+        return [['var', E("_.render(_.getitem('n', 0))"), []]]
     if form == 'entity':
         return [['var', N('n'), [['html_quote', None]]]]
     # expressions in which the probe name is free *and* the name of a
@@ -127,17 +139,21 @@ def cases(tier):
     for k in range(1, 7):
         for sub in itertools.combinations(SOURCES, k):
             shapes = ('single', 'last', 'first', 'both', 'repeat', 'falsy',
-                      'falsy-last') \
+                      'falsy-last', 'middle', 'mid-first', 'fourth') \
                 if 'client' in sub else ('none',)
             for shape in shapes:
-                for kind in ('plain', 'callable', 'template', 'falsy'):
+                for kind in ('plain', 'callable', 'template', 'falsy', 'rwn'):
                     for form in FORMS:
                         if kind == 'falsy' and form not in (
                                 'var', 'entity', 'ifvar'):
                             continue
-                        if form == 'varexprcall' and kind != 'callable':
+                        if form == 'varexprcall' and kind not in (
+                                'callable', 'rwn'):
                             continue
                         if form.startswith('expr') and kind != 'plain':
+                            continue
+                        if kind == 'rwn' and shape not in (
+                                'single', 'last', 'none'):
                             continue
                         idx += 1
                         yield {'fam': 'src', 'sources': list(sub),
@@ -156,7 +172,7 @@ def cases(tier):
                                'syntax': SYNTAXES[idx % 3]}
     # the same with a name that is also the name of a builtin the
     # expression language offers (as _.max, _.str, ...): an ordinary name
-    for name in ('max', 'str', 'len', '_n'):
+    for name in ('max', 'str', 'len', '_n', 'Title', 'itemCount'):
         for k in range(1, 7):
             for sub in itertools.combinations(SOURCES, k):
                 for kind in ('plain', 'callable'):
@@ -187,6 +203,18 @@ def cases(tier):
                 idx += 1
                 yield {'fam': 'scope', 'nest': [list(a)], 'sib': [list(b)],
                        'ncall': ncall, 'syntax': SYNTAXES[idx % 3]}
+    # the probe name spelled with capitals / an underscore inside / digits:
+    # a name is a name (every single block and every pair of nested blocks)
+    for name in ('Nm', 'itemCount', 'N', 'n_2'):
+        for d in (1, 2):
+            for nest in itertools.product(range(len(levels)), repeat=d):
+                if d == 2 and not (levels[nest[0]][1] or levels[nest[1]][1]):
+                    continue
+                if d == 2 and name not in ('Nm',):
+                    continue
+                idx += 1
+                yield {'fam': 'scope', 'nest': [list(levels[i]) for i in nest],
+                       'name': name, 'syntax': SYNTAXES[idx % 3]}
     for d in range(1, depth + 1):
         for nest in itertools.product(range(len(levels)), repeat=d):
             if d == 4 and tier == 'thorough':
@@ -255,6 +283,19 @@ def build_src(case):
             parts['clients'] = [{'zz': ['lit', 1]}, {'n': spec['client']}]
         elif shape == 'first':
             parts['clients'] = [{'n': spec['client']}, {'zz': ['lit', 1]}]
+        elif shape == 'middle':
+            # three clients, only the one in the middle defines the name
+            parts['clients'] = [{'zz': ['lit', 1]}, {'n': spec['client']},
+                                {'yy': ['lit', 2]}]
+        elif shape == 'mid-first':
+            # the first and the middle one define it: the middle one wins
+            parts['clients'] = [{'n': first}, {'n': spec['client']},
+                                {'yy': ['lit', 2]}]
+        elif shape == 'fourth':
+            # five clients; the fourth wins over the second
+            parts['clients'] = [{'zz': ['lit', 1]}, {'n': first},
+                                {'yy': ['lit', 2]}, {'n': spec['client']},
+                                {'xx': ['lit', 3]}]
         elif shape == 'repeat':
             # the tuple (a, b, a): the same object again in the last place
             parts['clients'] = [{'n': spec['client']}, {'n': first}]
@@ -349,7 +390,30 @@ def probe(label):
             ['var', N('error_type'), [['missing', '-']]], T(']')]
 
 
+def deep_rename(x, new):
+    """the probe name n spelled differently everywhere: references, let
+    binders, attribute / mapping keys, expression texts"""
+    if isinstance(x, dict):
+        return {(new if k == 'n' else k): deep_rename(v, new)
+                for k, v in x.items()}
+    if isinstance(x, list):
+        if len(x) == 2 and x[0] == 'n' and isinstance(x[1], str):
+            return ['n', new if x[1] == 'n' else x[1]]       # a name ref
+        if len(x) == 2 and x[0] == 'n' and isinstance(x[1], list):
+            return [new, deep_rename(x[1], new)]             # a let binder
+        if len(x) == 2 and x[0] == 'e' and isinstance(x[1], str):
+            return ['e', re.sub(r'\bn\b', new, x[1])]
+        if len(x) == 2 and x[0] == 'lit':
+            return x
+        return [deep_rename(y, new) for y in x]
+    return x
+
+
 def build_scope(case):
+    if case.get('name'):
+        nodes, ns = build_scope(dict(case, name=None))
+        return deep_rename(nodes, case['name']), \
+            deep_rename(ns, case['name'])
     ns = {'n': ['lit', 'OUT'], 'm0': ['lit', 'M']}
     counter = [0]
 
@@ -489,7 +553,8 @@ def run(case):
         single = case['shape'] in ('single', 'falsy')
         io, ilog, src = observe_src_impl(nodes, parts, case['syntax'], single)
         ro, rlog, unspec = observe_src_ref(nodes, parts)
-        n_def = len(case['sources']) + (case['shape'] in ('both', 'repeat'))
+        n_def = len(case['sources']) + (case['shape'] in (
+            'both', 'repeat', 'mid-first', 'fourth'))
         tag = 'src:%s:%s' % (case['kind'], case['form'])
     else:
         nodes, ns = build_scope(case)
